@@ -41,6 +41,8 @@ type HRender struct {
 	EOL         string `json:"eol"`                   // flat: line end ("\n" | "\r\n"); edi: see RenderUnits
 	Blank       []int  `json:"blank,omitempty"`       // Blank[i]: empty lines written before unit i (last entry: after the last unit)
 	NoFinalTerm bool   `json:"no_final_term,omitempty"`
+	// CycleBlank: Blank is applied cyclically to unit sequences longer than it (long inputs)
+	CycleBlank bool `json:"cycle_blank,omitempty"`
 }
 
 // HOpts returns the model options of the hierarchy's format.
@@ -280,6 +282,29 @@ func DrawDeepUnits(t *rapid.T, h Hierarchy) []model.HUnit {
 	return HUnitsOf(seq)
 }
 
+// DrawLongUnits draws a long unit sequence (its text is about 4100-9000 bytes, beyond the readers' 4096-byte buffers): the
+// first top-level declaration is made repeatable without bound and valid instances of the hierarchy are concatenated.
+func DrawLongUnits(t *rapid.T, h Hierarchy, tags []string) []model.HUnit {
+	g := &hierDrawer{t: t, format: h.Format, tags: tags}
+	if len(h.Top) > 0 {
+		h.Top[0].Max = hierIntPtr(-1)
+	}
+	want := rapid.SampledFrom([]int{4100, 4300, 8300, 9000}).Draw(t, "longBytes")
+	var seq []string
+	for rounds := 0; rounds < 3000 && len(seq)*5 < want; rounds++ {
+		var one []string
+		g.instance(h.Top, h.HOpts(), &one, rounds%2 == 1)
+		if len(one) == 0 {
+			one = []string{tags[rounds%len(tags)]}
+		}
+		seq = append(seq, one...)
+	}
+	if len(seq) > 2400 {
+		seq = seq[:2400]
+	}
+	return HUnitsOf(seq)
+}
+
 // DrawHRender draws how the units are written.
 func DrawHRender(t *rapid.T, format string, nUnits int) HRender {
 	r := HRender{EOL: "\n"}
@@ -434,7 +459,7 @@ func DrawUnits(t *rapid.T, h Hierarchy, tags []string) []model.HUnit {
 func HUnitsOf(tags []string) []model.HUnit {
 	us := make([]model.HUnit, len(tags))
 	for i, tg := range tags {
-		us[i] = model.HUnit{Tag: tg, ID: fmt.Sprintf("u%02d", i)}
+		us[i] = model.HUnit{Tag: tg, ID: fmt.Sprintf("u%02d", i%100)} // (three characters: the fixed-length id column is 3 wide)
 		if tg == "_" {
 			us[i].ID = "" // rendered as a bare delimiter: no tag, no id
 		}
@@ -589,6 +614,9 @@ func (h Hierarchy) RenderUnits(units []model.HUnit, r HRender) []byte {
 	blank := func(i int) int {
 		if i < len(r.Blank) {
 			return r.Blank[i]
+		}
+		if r.CycleBlank && len(r.Blank) > 0 {
+			return r.Blank[i%len(r.Blank)]
 		}
 		return 0
 	}
